@@ -4,7 +4,8 @@ The prompt contains only the property texts (title, statement, quantifier) and g
 import json, os, subprocess, sys
 HERE = os.path.dirname(os.path.dirname(os.path.abspath(__file__)))
 tag, ids = sys.argv[1], sys.argv[2:]
-wt = "/tmp/seed2_%s" % tag
+ROUND = os.environ.get("SEED_ROUND", "2")
+wt = "/tmp/seed%s_%s" % (ROUND, tag)
 props = {json.loads(l)["id"]: json.loads(l) for l in open(os.path.join(HERE, "properties.jsonl"))}
 RTR_HINT = ("Hints on reaching the code: the protocol engine is in rtrlib/rtr/packets.c (rtr_sync, rtr_receive_pdu, error reports) and rtrlib/rtr/rtr.c "
             "(state machine rtr_fsm_start, rtr_stop); the transport is a table of function pointers (`struct tr_socket`: open/close/send/recv), so a demonstration can "
@@ -22,7 +23,7 @@ For EACH of the properties below, produce TWO DIFFERENT changes to the library s
  (a) the library still compiles without new warnings-as-errors,
  (b) the whole existing test suite above still passes, unedited,
  (c) the breakage needs something specific to manifest — a particular interleaving, a crash or fault at a particular point, a multi-step sequence of operations, an unusual input value, a boundary value of a field, or two cooperating code sites that each look fine alone — NOT something ordinary use would expose at once (a change that makes every call fail is worthless). Think like someone introducing a subtle regression during a refactoring, a clean-up or an "optimisation".
-Give each change a realistic look (plausible as a real commit). Prefer changes in less obvious places (helpers, error paths, rarely taken branches, boundary handling) over the most central line.
+Give each change a realistic look (plausible as a real commit). Prefer changes in less obvious places (helpers, error paths, rarely taken branches, boundary handling) over the most central line.{extra}
 
 For each change deliver, in {wt}/out/<PROPERTY-ID>_1/ and {wt}/out/<PROPERTY-ID>_2/ :
   patch.diff   — `git -C {wt} diff -- rtrlib third-party` with ONLY that change applied (produce the changes independently: finish one, save its diff, `git -C {wt} checkout -- rtrlib third-party`, then do the next),
@@ -31,14 +32,17 @@ For each change deliver, in {wt}/out/<PROPERTY-ID>_1/ and {wt}/out/<PROPERTY-ID>
   meta.json    — {{"property": "<id>", "what_it_breaks": "...", "needs_to_manifest": "...", "files_changed": [...], "verified": "what you ran and saw"}}.
 You MUST verify yourself: (1) with the patch the suite passes and demo fails; (2) without the patch demo passes. Restore the worktree sources to the original state at the end (`git -C {wt} checkout -- rtrlib third-party`), leaving only {wt}/out and {wt}/_build.
 
-{hint}""".format(wt=wt, hint=hint)
+{hint}""".format(wt=wt, hint=hint, extra=(" Assume a diligent reviewer will also run a few thousand randomised tests that compare the library with a straightforward reference "
+    "implementation on random operation sequences and random (also malformed) protocol conversations: your change must survive THAT - it should need a rare coincidence "
+    "(a specific 32-bit value, an exact count, a particular order of three or more events, a long history, a rare interleaving, a second fault while handling the first) "
+    "that such testing is unlikely to hit, yet be reachable for an attacker or an unlucky operator." if ROUND == "3" else ""))
 for i in ids:
     p = props[i]
     txt += "PROPERTY %s: %s\n%s\n(quantifier: %s)\n\n" % (i, p["title"], p["statement"], p["quantifier"]["text"])
 txt += ("Your final message: for each change, one paragraph describing it and what is needed to see it, and the paths of the delivered files. "
         "If you cannot find a change that satisfies (a)-(c), say so and explain what you tried.\n")
 os.makedirs(os.path.join(HERE, "build"), exist_ok=True)
-out = os.path.join(HERE, "build", "seed_prompt2_%s.txt" % tag)
+out = os.path.join(HERE, "build", "seed_prompt%s_%s.txt" % (ROUND, tag))
 open(out, "w").write(txt)
 if not os.path.isdir(wt):
     subprocess.run(["git", "-C", "/repo", "worktree", "add", "--detach", wt, "HEAD"], check=True, stdout=subprocess.DEVNULL, stderr=subprocess.DEVNULL)
